@@ -276,6 +276,10 @@ func Main[C any](t *testing.T, ck Check[C]) {
 		}
 		r := ck.Run(c)
 		st.record(c, r)
+		if r.Fail != "" && os.Getenv("VERIF_KEEPGOING") != "" {
+			fmt.Printf("FAILCASE: %s\n", r.Fail)
+			return
+		}
 		if r.Fail != "" {
 			st.mu.Lock()
 			st.failing = true
@@ -324,6 +328,10 @@ func Enumerate[C any](t *testing.T, ck Check[C], each func(yield func(C) bool), 
 		r := ck.Run(c)
 		st.record(c, r)
 		if r.Fail != "" {
+			if os.Getenv("VERIF_KEEPGOING") != "" { // triage aid: list every failure
+				fmt.Printf("FAILCASE: %s\n", r.Fail)
+				return true
+			}
 			st.Failed = true
 			writeFail(ck.Name, c, r.Fail)
 			t.Errorf("%s", r.Fail)
